@@ -142,13 +142,16 @@ char* _ZN4QMapIj11QXmppPacketE5beginEv(char *self) { return 0; }
 char* _ZN4QMapIj11QXmppPacketE3endEv(char *self) { return 0; }
 uint8_t _ZNK4QMapIj11QXmppPacketE8iteratorneERKS2_(char *a, char *b) { return *(char**)a != *(char**)b; }
 uint8_t _ZNK4QMapIj11QXmppPacketE8iteratoreqERKS2_(char *a, char *b) { return *(char**)a == *(char**)b; }
-/* QRegularExpression (the JID pattern of BindManager::handleElement): over-approximation - whether the text matches is arbitrary,
+/* QRegularExpression (the JID pattern of BindManager::handleElement): over-approximation - whether the text matches is arbitrary (fixed per instance),
    the three captures of a match are arbitrary non-empty strings (C10 does not depend on the bound address) */
 struct c10_match { uint8_t has; };
+#ifndef C10_RE_MATCHES
+#define C10_RE_MATCHES vp_bool()   /* instances may fix the verdict (-DC10_RE_MATCHES=0|1): keeps the path concrete */
+#endif
 void _ZN18QRegularExpressionC1ERK7QString6QFlagsINS_13PatternOptionEE(char *self, char *pat, uint32_t opts) { *(char**)self = 0; }
 void _ZN18QRegularExpressionD1Ev(char *self) { }
 void _ZNK18QRegularExpression5matchERK7QStringiNS_9MatchTypeE6QFlagsINS_11MatchOptionEE(char *ret, char *self, char *subj, uint32_t off, uint32_t mt, uint32_t mo) {
-  struct c10_match *m = malloc(sizeof(struct c10_match)); ASSUME(m != 0); m->has = vp_bool(); *(struct c10_match**)ret = m; }
+  struct c10_match *m = malloc(sizeof(struct c10_match)); ASSUME(m != 0); m->has = C10_RE_MATCHES; *(struct c10_match**)ret = m; }
 uint8_t _ZNK23QRegularExpressionMatch8hasMatchEv(char *self) { return (*(struct c10_match**)self)->has; }
 void _ZNK23QRegularExpressionMatch8capturedEi(char *ret, char *self, uint32_t nth) { vp_sym_string_nonempty(ret, 2); }
 void _ZN23QRegularExpressionMatchD1Ev(char *self) { }
